@@ -347,6 +347,7 @@ func c20OpenUnit(unit string, env *fw.Env) *fw.Result {
 					st = fs.clone()
 					st.apply(log[cut], cc.Torn)
 				}
+				fw.Alive()
 				st.dump(dir)
 				res.Evaluations++
 				res.Nontrivial++
